@@ -283,10 +283,14 @@ func TestC17(t *testing.T) {
 			rep := p.Put(ctx, "c17s", key, val, PutOpts{})
 			g := cls[0].Get(ctx, "c17s", key)
 			stored := false
+			copies := 0 // fragments holding exactly the written value
 			for _, m := range c.Live() {
 				for _, kind := range []partitions.Kind{partitions.PRIMARY, partitions.BACKUP} {
-					if _, ok := m.V.DMap.VerifEntry("c17s", key, kind); ok {
+					if e, ok := m.V.DMap.VerifEntry("c17s", key, kind); ok {
 						stored = true
+						if string(e.Value) == val {
+							copies++
+						}
 					}
 					// a truncated key would show up under another name: look for any entry whose key is a prefix
 					if len(key) > 255 {
@@ -309,7 +313,7 @@ func TestC17(t *testing.T) {
 			n++
 			sum.Evaluations++
 			w.Emit(trace.Ev{"t": "size", "n": n, "klen": len(key), "esize": 29 + len(key) + vlen, "T": T, "ret": rep.Ret, "detail": rep.Err,
-				"readback": g.Ret == "val" && g.V == val, "stored": stored, "neighbours": ok, "path": p.Name(), "R": R})
+				"readback": g.Ret == "val" && g.V == val, "stored": stored, "copies": copies, "neighbours": ok, "path": p.Name(), "R": R})
 			if abs(29+len(key)+vlen-T) <= 1 || len(key) >= 255 {
 				sum.DistinctNontrivial++
 			}
@@ -319,7 +323,7 @@ func TestC17(t *testing.T) {
 				key := strings.Repeat("k", kl-1) + strconv.Itoa(pi)
 				try(p, key, 10)
 			}
-			for _, d := range []int{-2, -1, 0, 1, 2, 500} {
+			for _, d := range []int{-40, -31, -30, -29, -28, -27, -16, -8, -3, -2, -1, 0, 1, 2, 500} {
 				key := fmt.Sprintf("sz%d-%d", pi, d+10)
 				try(p, key, T+d-29-len(key))
 			}
